@@ -14,7 +14,7 @@ RULE = (
     "keep-alive / close x network segmentation x {nothing, stray bytes or a complete second response after the body, a body "
     "after a body-less HEAD/204/304 response, an interim 100 Continue, early EOF inside the body}; per response the caller "
     "behaviour = read all / read k then release / release unread / drain / close / read k then close / stream / ignore / "
-    "read k then ignore. Every body the server sends is TAGGED with the target and serial number of the request it answers, "
+    "read k then ignore / hold (read to the end only just before the last request, so that several connections are in flight). Every body the server sends is TAGGED with the target and serial number of the request it answers, "
     "stray bytes carry a poison tag, so each delivered byte has a decidable owner. Non-trivial = an earlier response was left "
     "unread / partially read / had stray bytes or a surplus body AND a later request used the pool."
 )
@@ -25,7 +25,7 @@ ASSUMPTIONS = [
 ]
 EXHAUSTIVE = {"quick": False, "thorough": False}
 
-BEHAVIOURS = ["read", "readk-release", "release", "drain", "close", "readk-close", "stream", "ignore", "readk-ignore"]
+BEHAVIOURS = ["read", "readk-release", "release", "drain", "close", "readk-close", "stream", "ignore", "readk-ignore", "hold"]
 EXTRAS = [None, "stray", "second", "force_body", "pre100", "short"]
 
 
@@ -89,10 +89,26 @@ def run_case(case) -> list[Failure]:
     keepalive = []  # responses the caller ignores stay referenced (as a forgetful caller's would)
     with fakenet.Net(srv) as net:
         pool = urllib3.HTTPConnectionPool("a.test", 80, maxsize=case["maxsize"], retries=case["retries"])
+        held = []  # (response, record): read to the end (which releases the connection) right before the last request
         for i, rq in enumerate(case["requests"]):
             target = "/x%d" % i
             rec = {"target": target, "bytes": b"", "status": None, "err": None, "method": rq["m"], "b": rq["b"]}
             delivered.append(rec)
+            if i == len(case["requests"]) - 1:
+                while held:
+                    hr, hrec = held.pop(0)
+                    try:
+                        hrec["bytes"] += hr.read()
+                    except BaseException as e:  # noqa: BLE001
+                        if type(e).__name__ == "CaseTimeout":
+                            raise
+                        hrec["err"] = e
+                        e.__traceback__ = None
+                    try:
+                        hr.release_conn()
+                    except Exception:  # noqa: BLE001
+                        pass
+                    del hr
             try:
                 r = pool.urlopen(rq["m"], target, body=(b"a=1" if rq["m"] == "POST" else None), preload_content=False)
             except BaseException as e:  # noqa: BLE001
@@ -127,6 +143,11 @@ def run_case(case) -> list[Failure]:
                     r.release_conn()
                 elif b == "ignore":
                     keepalive.append(r)
+                elif b == "hold":
+                    if i == len(case["requests"]) - 1:
+                        rec["bytes"] += r.read()
+                    else:
+                        held.append((r, rec))
             except BaseException as e:  # noqa: BLE001
                 if type(e).__name__ == "CaseTimeout":
                     raise
@@ -167,7 +188,7 @@ def run_case(case) -> list[Failure]:
         a = owners[-1]
         if a.get("dirty") and a.get("nth_on_socket", 0) > 0:
             fails.append(Failure("dirty-connection-yielded", {**sig}, f"request {i} got its response on socket #{a['sid']} although bytes/EOF were pending there when the request arrived: {brief()}"))
-        if d["b"] in ("read", "stream") and d["err"] is None and got != a["body"] and a["outcome"].get("o") == "resp":
+        if d["b"] in ("read", "stream", "hold") and d["err"] is None and got != a["body"] and a["outcome"].get("o") == "resp":
             fails.append(Failure("complete", {**sig, "framing": a["outcome"].get("framing")}, f"request {i} read to the end without error but got {len(got)} of {len(a['body'])} bytes: {brief()}"))
     return fails
 
@@ -210,6 +231,11 @@ def classes(case):
 
 
 def enum_cases(tier):
+    yield from overlap_cases(tier)
+    yield from product_cases(tier)
+
+
+def product_cases(tier):
     """Exhaustive 2-request product: server behaviour x caller behaviour for the first exchange, then a plain second request."""
     k = 0
     for framing in ("cl", "chunked", "close"):
@@ -227,6 +253,22 @@ def enum_cases(tier):
                                         continue
                                     sv = {"status": status, "framing": framing, "keep": keep, "extra": extra, "seg": seg, "n": 40}
                                     yield {"kind": "own", "maxsize": maxsize, "retries": retries, "requests": [{"m": m, "b": b}, {"m": "GET", "b": "read"}, {"m": ("GET", "POST")[k % 2], "b": "stream"}], "server": [sv]}
+
+
+def overlap_cases(tier):
+    """Two or three responses in flight at once (maxsize 2), each with its own server extra, then a last request."""
+    k = 0
+    for e1 in EXTRAS:
+        for e2 in EXTRAS:
+            for framing in ("cl", "chunked"):
+                for status in (200, 204):
+                    for retries in (False, 1, 3):
+                        for last in ("read", "stream"):
+                            k += 1
+                            if tier == "quick" and k % 2:
+                                continue
+                            svs = [{"status": status, "framing": framing, "extra": e1, "n": 30}, {"status": status, "framing": framing, "extra": e2, "n": 30}]
+                            yield {"kind": "own", "maxsize": 2, "retries": retries, "requests": [{"m": "GET", "b": "hold"}, {"m": "GET", "b": "hold"}, {"m": "GET", "b": last}, {"m": "GET", "b": "read"}], "server": svs}
 
 
 def _hyp():
